@@ -91,20 +91,34 @@ func runLiveSoak(cs CaseSpec) *CaseResult {
 	}
 	// submitters
 	var swg sync.WaitGroup
-	for s := 0; s < 3; s++ {
+	// "crowd": many clients blocked in SubmitTx on the same node at once, in
+	// bursts (each burst is released together)
+	nSub := int(cs.I("submitters", 3))
+	var gate chan struct{}
+	if nSub > 3 {
+		gate = make(chan struct{})
+	}
+	for s := 0; s < nSub; s++ {
 		s := s
 		swg.Add(1)
 		go func() {
 			defer swg.Done()
 			scratch := make([]byte, 0, 64)
-			for k := 0; k < total/3; k++ {
+			for k := 0; k < total/nSub; k++ {
+				if gate != nil {
+					<-gate
+				}
 				tx := []byte(fmt.Sprintf("soak|%d|%d|%d", cs.Index, s, k))
 				sent.Store(string(tx), true)
 				atomic.AddInt64(&sentCount, 1)
 				// the application reuses one scratch buffer for every submission and
 				// overwrites it as soon as SubmitTx has returned
 				scratch = append(scratch[:0], tx...)
-				ln.Nodes[(s+k)%n].Proxy.SubmitTx(scratch)
+				target := (s + k) % n
+				if gate != nil {
+					target = k % n // the whole crowd at one node
+				}
+				ln.Nodes[target].Proxy.SubmitTx(scratch)
 				for x := range scratch {
 					scratch[x] = '#'
 				}
@@ -117,6 +131,17 @@ func runLiveSoak(cs CaseSpec) *CaseResult {
 				}
 			}
 		}()
+	}
+	if gate != nil {
+		go func() {
+			for b := 0; b < total/nSub; b++ {
+				for i := 0; i < nSub; i++ {
+					gate <- struct{}{}
+				}
+				time.Sleep(2 * time.Millisecond)
+			}
+		}()
+		res.count("soak_bursts_of_concurrent_clients_at_one_node", int64(total/nSub))
 	}
 	submitted := make(chan struct{})
 	go func() { swg.Wait(); close(submitted) }()
